@@ -29,6 +29,9 @@ CHECKS = {
  "C15": dict(text="Same TLC-enumerated programs as C01 plus a describe family (non-identifier keys, named types referenced twice, recursive and tuple-recursive names, every non-JSON builtin); for each program the describe() text is compiled again (generation 2) and Trace_Describe.tla requires: the text compiles, generation-2 validate vectors and hash256 equal generation 1, describe() of generation 2 equals the text (fixpoint), no alias is declared twice.",
              ref="4/C15", note="Trusted: TLC; validators are compared on type-directed probes plus the common pool; declared names are extracted with a regular expression.",
              tech="TLC-enumerated programs; two-generation round trip judged by TLC on the trace"),
+ "C14": dict(text="Watch.tla models the long-lived session: disk contents, the BUNDLER cache of parsed modules, the set of watched files, and the actions Edit(f, c) (a file changes; watched files are forwarded to update_file_content_inner and trigger a rebuild, as in commandeer.ts) and Rebuild (get_or_fetch_file: cache first, else read + parse + insert). TLC checks HistoryIndependent (every rebuild equals a fresh build of the current files) and CacheCoherent on the complete state graph (valid, unresolvable and unparsable variants, changing import graph). A shortest history to every state, extended by every possible next step, plus seeded random walks are replayed on the real beff-wasm code through the cfg(beff_verif) native host; Trace_Watch.tla requires each logged step to be the model's step (same cache keys, same watched set, same rebuild trigger) and the rebuild output to equal a fresh process's output byte for byte.",
+             ref="4/C14", note="Trusted: TLC; the native host standing for the JS imports; the session binary's transcription of the watch loop; thread-local BUNDLER = one session per thread.",
+             tech="TLC model checking of the session state machine + replay of an edge cover and random walks + trace validation"),
 }
 NA = []
 def main():
@@ -52,7 +55,7 @@ def main():
             "guard": "cfg(beff_verif)",
             "enable": "harness/.cargo/config.toml passes --cfg beff_verif to every crate of the harness build (path dependencies on /repo/packages/beff-core and beff-wasm)",
             "baseline_off_cmd": "cd /repo && cargo test --workspace --no-fail-fast --offline",
-            "source_commits": [],
+            "source_commits": ["2cad84a"],
             "add_only": True,
         },
         "engines": [{"name": "tlc", "path": "/verif/bin/tlcw", "serves_properties": sorted(CHECKS), "kind_free_text": "TLC 1.8.0 explicit-state model checker over /verif/spec; generation configs (mc/), trace specs (trace/)"}],
